@@ -35,6 +35,15 @@ fn replay(ops: &[Op]) -> Session {
     s
 }
 
+fn s_free_line(sess: &Session) -> u64 {
+    let lines = sess.snapshot().map_lines;
+    let mut n = lines.last().copied().unwrap_or(10).saturating_add(7);
+    while lines.contains(&n) {
+        n = n.saturating_add(1);
+    }
+    n
+}
+
 fn refs_view(s: &Snapshot) -> String {
     // Frames left over without a pending breakpoint are not a live reference: every host line clears them
     // before it executes (so neither RETURN nor CONT can ever reach them). They are left out of the view.
@@ -63,7 +72,15 @@ fn run_case(ctx: &Ctx, index: u64, rep: &mut Report) {
     let mode = rng.below(4);
     let k = 1 + rng.below(40);
     let mut ridx = 0;
-    sess.call(Op::Line("RUN".into()));
+    // RUN is not the only way into a program: GOTO / GOSUB typed at the prompt build the same runtime references
+    let first = g.prog.lines.first().map(|l| l.number).unwrap_or(10);
+    let start = match rng.below(6) {
+        0 => format!("GOTO {}", first),
+        1 => format!("GOSUB {}", first),
+        _ => "RUN".to_string(),
+    };
+    rep.count(&format!("start.{}", start.split(' ').next().unwrap_or("")));
+    sess.call(Op::Line(start));
     let mut turns = 1;
     let suspension: &'static str;
     loop {
@@ -104,6 +121,38 @@ fn run_case(ctx: &Ctx, index: u64, rep: &mut Report) {
                 return;
             }
         }
+    }
+    // state built purely in direct mode (no RUN since the last reset) must be invalidated by an edit as well
+    if sess.state() == InterpreterState::Idle && rng.chance(1, 4) {
+        let probes = ["FOR Q1 = 1 TO 5", "READ A$", "FOR Q2 = 3 TO 1 STEP -1", "READ B$"];
+        for _ in 0..1 + rng.usize(2) {
+            let l = *rng.pick(&probes);
+            sess.run_line(l, 20);
+            if sess.poisoned {
+                flush_trips(ctx, rep, index, &sess, || exec::program_json(&g.prog));
+                return;
+            }
+            sess.settle();
+        }
+        rep.count("direct_mode_state_before_edit");
+    }
+    // a second round: a harmless edit, then back into the program by GOTO (not RUN), suspended again
+    if rng.chance(1, 5) {
+        let n = s_free_line(&sess);
+        sess.call(Op::Line(format!("{} REM first edit", n)));
+        let target = first;
+        sess.run_line(&format!("GOTO {}", target), 1);
+        let mut guard = 0;
+        while !sess.poisoned && sess.state() == InterpreterState::Running && guard < k {
+            sess.call(Op::Cont);
+            guard += 1;
+        }
+        if sess.poisoned {
+            flush_trips(ctx, rep, index, &sess, || exec::program_json(&g.prog));
+            return;
+        }
+        sess.settle();
+        rep.count("two_rounds");
     }
     let s0 = sess.snapshot();
     let history: Vec<Op> = sess.log.iter().map(|r| r.op.clone()).collect();
